@@ -1637,6 +1637,155 @@ theorem full_only_without_room (c : Cache) (b : List Tok) (h : Inv c) (hfix : c.
         rw [defragCore_freeCount _ _ h1.len] at this
         exact this
 
+/-! ### the unwind hypotheses, discharged from the state before the pass -/
+
+/-- every cell is unowned or an earlier cell with the same position and some of its owners -/
+def Shrunk (cells' cells : List Cell) : Prop :=
+  ∀ x ∈ cells', x.seqs = [] ∨ ∃ y ∈ cells, x.pos = y.pos ∧ ∀ s ∈ x.seqs, s ∈ y.seqs
+
+theorem shrunk_refl (cells : List Cell) : Shrunk cells cells :=
+  fun x hx => Or.inr ⟨x, hx, rfl, fun _ h => h⟩
+
+theorem shrunk_trans {a b c : List Cell} (h1 : Shrunk a b) (h2 : Shrunk b c) : Shrunk a c := by
+  intro x hx
+  rcases h1 x hx with h | ⟨y, hy, hp, hs⟩
+  · exact Or.inl h
+  · rcases h2 y hy with h | ⟨z, hz, hp2, hs2⟩
+    · left
+      cases hxs : x.seqs with
+      | nil => rfl
+      | cons s rest =>
+        have := hs s (by rw [hxs]; simp)
+        rw [h] at this; simp at this
+    · exact Or.inr ⟨z, hz, hp.trans hp2, fun s h => hs2 s (hs s h)⟩
+
+theorem slideSeq_shrunk (c : Cache) (w : Int) (seq : Nat) (low : Int) : Shrunk (slideSeq c w seq low).cells c.cells := by
+  unfold slideSeq
+  cases c.ranges seq with
+  | none => exact shrunk_refl _
+  | some old =>
+    intro x hx
+    obtain ⟨k, c0, hc0, hxe⟩ := mem_mapFrom hx
+    subst hxe
+    right
+    refine ⟨c0, hc0, ?_, ?_⟩
+    · unfold evictCell; split <;> rfl
+    · intro s hs
+      unfold evictCell at hs
+      split at hs
+      · exact (mem_dropSeq hs).1
+      · exact hs
+
+theorem slide_shrunk (c : Cache) (b : List Tok) : Shrunk (slide c b).cells c.cells := by
+  unfold slide
+  cases c.window with
+  | none => exact shrunk_refl _
+  | some w =>
+    simp only
+    generalize batchSeqs b = seqs
+    induction seqs generalizing c with
+    | nil => exact shrunk_refl _
+    | cons seq rest ih =>
+      simp only [List.foldl_cons]
+      cases lowest b seq with
+      | none => exact ih c
+      | some low => exact shrunk_trans (ih (slideSeq c w seq low)) (slideSeq_shrunk c w seq low)
+
+theorem defrag_shrunk (c : Cache) : Shrunk (defrag c).cells c.cells := by
+  intro x hx
+  have hm := (defragCore_moved c.v.fixDefrag c.cells c.rows).1.2 x hx
+  rcases hm with h | h
+  · exact Or.inl h
+  · exact Or.inr ⟨x, h, rfl, fun _ hs => hs⟩
+
+theorem placeBase_shrunk (c : Cache) (b : List Tok) : Shrunk (placeBase c b).cells c.cells := by
+  have h1 : Shrunk (slide { c with curBatch := b, except := [] } b).cells c.cells :=
+    slide_shrunk { c with curBatch := b, except := [] } b
+  unfold placeBase
+  split
+  · exact h1
+  · exact shrunk_trans (defrag_shrunk _) h1
+
+theorem posBound_shrunk {cells' cells : List Cell} (h : PosBound cells) (hs : Shrunk cells' cells) : PosBound cells' := by
+  intro x hx s hsx
+  rcases hs x hx with h0 | ⟨y, hy, hp, hsub⟩
+  · rw [h0] at hsx; simp at hsx
+  · rw [hp]; exact h y hy s (hsub s hsx)
+
+theorem noLater_shrunk {cells' cells : List Cell} {b : List Tok} (h : NoLater cells b) (hs : Shrunk cells' cells) :
+    NoLater cells' b := by
+  intro x hx t ht hsx
+  rcases hs x hx with h0 | ⟨y, hy, hp, hsub⟩
+  · rw [h0] at hsx; simp at hsx
+  · rw [hp]; exact h y hy t ht (hsub _ hsx)
+
+/-- **Unwinding an accepted batch** restores the abstraction placement started from; the hypotheses are
+    about the state *before* the pass: stored positions are below `MaxInt32` and the batch continues its
+    sequences (nothing at or after a batch token's position is stored for its sequence). -/
+theorem startForward_unwind_abs_pre (c : Cache) (b : List Tok) (h : Inv c)
+    (hok : (startForward c b).2 = .ok)
+    (hpb : PosBound c.cells) (hbp : ∀ t ∈ b, t.pos < maxInt32) (hnl : NoLater c.cells b) :
+    abs (unwind (startForward c b).1 b) = abs (placeBase c b) :=
+  startForward_unwind_abs c b h hok (posBound_shrunk hpb (placeBase_shrunk c b)) hbp
+    (noLater_shrunk hnl (placeBase_shrunk c b))
+
+/-- what a pass that does not store its batch leaves of the abstract state: the window eviction for the
+    batch's sequences, nothing else -/
+def evictedSpec (c : Cache) (b : List Tok) : Spec :=
+  match c.window with
+  | none => abs c
+  | some w => specSlide (abs c) w b
+
+/-- **A rejected wrapped batch leaves every wrapped cache's history alone** (spec level): the caches before
+    the rejecting one accepted the batch and were unwound, the rejecting one defragmented in vain — the
+    abstract state of each of them is its state before the pass minus the window eviction for the batch's
+    sequences; the caches after it are untouched. -/
+theorem wrapper_rejected_batch_spec (cs : List Cache) (b : List Tok) (cs' : List Cache)
+    (hinv : ∀ c ∈ cs, Inv c) (hfix : ∀ c ∈ cs, c.v.fixDefrag = true) (hfresh : ∀ c ∈ cs, RowsFresh c)
+    (hbp : ∀ t ∈ b, t.pos < maxInt32)
+    (hgood : ∀ c ∈ cs, PosBound c.cells ∧ NoLater c.cells b)
+    (h : wStart cs b = (cs', .full)) :
+    ∃ pre c post, cs = pre ++ c :: post ∧
+      cs' = pre.map (fun x => unwind (startForward x b).1 b) ++ (startForward c b).1 :: post ∧
+      (∀ x ∈ pre, (abs (unwind (startForward x b).1 b)).Perm (evictedSpec x b)) ∧
+      (abs (startForward c b).1).Perm (evictedSpec c b) := by
+  obtain ⟨pre, c, post, e1, e2, e3, e4⟩ := wStart_full cs b cs' h
+  refine ⟨pre, c, post, e1, e4, ?_, ?_⟩
+  · intro x hx
+    have hx' : x ∈ cs := by rw [e1]; simp [hx]
+    have hi := hinv x hx'
+    have hsl : abs (slide { x with curBatch := b, except := [] } b) = evictedSpec x b :=
+      slide_abs { x with curBatch := b, except := [] } b ⟨hi.len, hi.cover, hi.rmax, hi.pad, hi.size⟩
+    rw [startForward_unwind_abs_pre x b hi (e2 x hx) (hgood x hx').1 hbp (hgood x hx').2, ← hsl]
+    exact placeBase_abs_perm x b hi (hfix x hx') (hfresh x hx')
+  · have hc : c ∈ cs := by rw [e1]; simp
+    exact rejected_forward_abs c b (hinv c hc) (hfix c hc) (hfresh c hc) e3
+
+/-- **An accepted wrapped batch is stored in every wrapped cache exactly as the specification prescribes**:
+    each cache's abstract state afterwards is its own window eviction + one fresh entry per token. -/
+theorem wrapper_forward_refines (cs : List Cache) (b : List Tok) (ids : List Nat) (cs' : List Cache)
+    (hinv : ∀ c ∈ cs, Inv c) (hfix : ∀ c ∈ cs, c.v.fixDefrag = true) (hfresh : ∀ c ∈ cs, RowsFresh c)
+    (hids : ids.length = b.length) (h : wStart cs b = (cs', .ok)) :
+    wPut cs' ids = cs.map (fun c => put (startForward c b).1 ids) ∧
+    ∀ c ∈ cs, (abs (put (startForward c b).1 ids)).Perm (KV.store (evictedSpec c b) (b.zip ids)) := by
+  obtain ⟨e1, e2⟩ := wStart_ok cs b cs' h
+  refine ⟨by rw [e1]; simp [wPut, List.map_map, Function.comp_def], ?_⟩
+  intro c hc
+  obtain ⟨s', hs', hp⟩ := refines_step c (.fwd b ids) (hinv c hc) (hfix c hc) (hfresh c hc) ⟨e2 c hc, hids⟩
+  simp only [specStep, Option.some.injEq] at hs'
+  subst hs'
+  simp only [stepH, e2 c hc, if_true] at hp
+  exact hp
+
+/-- a reserve pass on a wrapper is a reserve pass on every wrapped cache: each mask is exact, no state changes -/
+theorem wrapper_reserve_mask_exact (cs : List Cache) (b : List Tok) (hinv : ∀ c ∈ cs, Inv c)
+    (hn : ∀ c ∈ cs, 0 < c.cells.length) :
+    (wStartReserve cs b).map abs = cs.map abs ∧
+    ∀ c ∈ cs, ∀ t, exposedEntries (startReserve c b) t = visible c.window (abs c) t.seq t.pos := by
+  refine ⟨by simp [wStartReserve, List.map_map, Function.comp_def, (reserve_state _ b).2.2.2.1], ?_⟩
+  intro c hc t
+  exact reserve_mask_exact c b (hinv c hc) (hn c hc) t
+
 /-! ### `CanResume` (repaired, F15b) is sound: an approved position has its whole window present -/
 
 theorem nodup_range_length (n : Nat) (lo : Int) (L : List Int) (hnd : L.Nodup)
@@ -1899,5 +2048,16 @@ example :
       [(⟨0, 0⟩, 1)]) [(⟨0, 1⟩, 2)]) [(⟨0, 2⟩, 3)]) [(⟨0, 3⟩, 4)]
     c.window = some 2 ∧ canResume c 0 3 = true ∧ (seqPositions (abs c) 0).Nodup ∧ canResume c 0 5 = false ∧
     (abs c).length = 3 := by decide
+
+/-- non-vacuity of `wrapper_rejected_batch_spec`: the gemma-style pair of the wrapper example satisfies its
+    hypotheses (positions bounded, the batch continues sequence 0) and the batch is rejected by the second cache -/
+example :
+    let mk := fun (w : Option Int) =>
+      fwd (fwd (Causal.init { fixDefrag := true, fixResume := true } w 2 5 4 1 1 true)
+        [(⟨0, 0⟩, 1), (⟨0, 1⟩, 2), (⟨0, 2⟩, 3), (⟨0, 3⟩, 4)]) [(⟨1, 0⟩, 5), (⟨1, 1⟩, 6), (⟨1, 2⟩, 7), (⟨1, 3⟩, 8)]
+    let b : List Tok := [⟨0, 4⟩, ⟨0, 5⟩, ⟨0, 6⟩]
+    (wStart [mk (some 4), mk none] b).2 = .full ∧
+    (∀ c ∈ [mk (some 4), mk none], (∀ x ∈ c.cells, ∀ s ∈ x.seqs, x.pos < maxInt32) ∧
+      (∀ x ∈ c.cells, ∀ t ∈ b, t.seq ∈ x.seqs → x.pos < t.pos)) := by decide
 
 end OllamaVerif.C06
